@@ -1,0 +1,14 @@
+//go:build verif
+
+package snapshots
+
+// Accessors for the verification harness (build tag verif only).
+
+// VerifStateLockedC12 reports whether the store's state mutex is held right now (by a call in progress).
+func (s *Store) VerifStateLockedC12() bool {
+	if s.stateMu.TryLock() {
+		s.stateMu.Unlock()
+		return false
+	}
+	return true
+}
